@@ -21,7 +21,13 @@ Trees == {
   Fn("fabs", x), MCall("copysign", << KI(1), x >>), IfE(Cmp(x, "<", KI(0)), N("Product", << KI(-1), x >>), x),
   CSE0(Fn("exp", N("Product", << x, x >>))), N("Product", << x, y, x >>),
   N("Product", << N("Sum", << x, y >>), N("Sum", << x, y >>) >>),
-  N("Sum", << x, Fn("sinh", x), Fn("f", x) >>), Call(V("f"), << x >>) }
+  N("Sum", << x, Fn("sinh", x), Fn("f", x) >>), Call(V("f"), << x >>),
+  \* round 4: node kinds without a rule (refused by the faithful rules; "leaf_fallback_zero" answers 0)
+  N("Product", << x, CallKw(V("f"), << x >>, << KwArg("k1", KI(1)) >>) >>),
+  B("Quotient", y, CallKw(V("f"), << KI(2) >>, << KwArg("k2", x) >>)),
+  N("Sum", << x, V("<NaN>") >>), N("Product", << x, Look(x, "p") >>),
+  \* ... where 0 happens to be the true derivative the seeded rule is not wrong
+  N("Sum", << x, Look(V("o1"), "p") >>) }
 
 Init == tree \in Trees /\ share \in ShareVariants(tree, x, TRUE)
 Next == UNCHANGED << tree, share >>
